@@ -16,7 +16,11 @@ func (ru *run) planBlock(parent *chainBlock) blockPlan {
 	st := parent.state
 	var plan blockPlan
 	gap := 1
-	switch t.Pick([]int{10, 3, 1, 1}, "gap") {
+	gapWeights := []int{10, 3, 1, 1}
+	if ru.ticketHeavy {
+		gapWeights = []int{30, 2, 1, 0}
+	}
+	switch t.Pick(gapWeights, "gap") {
 	case 1:
 		gap = 1 + t.Choose(4, "gap_small")
 	case 2: // jump to / over an epoch boundary
@@ -28,17 +32,24 @@ func (ru *run) planBlock(parent *chainBlock) blockPlan {
 	plan.slot = st.Tau + types.TimeSlot(gap)
 	_, m2 := epochOf(plan.slot)
 	// tickets: only before the end of the submission window
-	if int(m2) < types.SlotSubmissionEnd && t.Prob(2, 3, "tickets") {
+	if int(m2) < types.SlotSubmissionEnd && (t.Prob(2, 3, "tickets") || ru.ticketHeavy) {
 		n := 1 + t.Choose(types.MaxTicketsPerBlock, "ntickets")
+		if ru.ticketHeavy && t.Prob(3, 4, "max_tickets") {
+			n = types.MaxTicketsPerBlock
+		}
 		var picks [][2]int
-		seen := map[[2]int]bool{}
-		for i := 0; i < n; i++ {
-			p := [2]int{t.Choose(types.ValidatorsCount, "tval"), t.Choose(types.TicketsPerValidator, "tattempt")}
-			if seen[p] || ru.ticketUsed(parent, plan.slot, p) {
-				continue
+		var free [][2]int // (validator, attempt) pairs not yet submitted in this epoch on this branch
+		for v := 0; v < types.ValidatorsCount; v++ {
+			for a := 0; a < types.TicketsPerValidator; a++ {
+				if p := [2]int{v, a}; !ru.ticketUsed(parent, plan.slot, p) {
+					free = append(free, p)
+				}
 			}
-			seen[p] = true
-			picks = append(picks, p)
+		}
+		for i := 0; i < n && len(free) > 0; i++ {
+			k := t.Choose(len(free), "tpick")
+			picks = append(picks, free[k])
+			free = append(free[:k], free[k+1:]...)
 		}
 		plan.ext.Tickets = ru.a.mkTickets(st, plan.slot, picks)
 		plan.ticketPicks = picks
@@ -52,7 +63,7 @@ func (ru *run) planBlock(parent *chainBlock) blockPlan {
 // submitted twice (the accumulator must stay duplicate-free) – unless the epoch changed.
 func (ru *run) ticketUsed(parent *chainBlock, slot types.TimeSlot, p [2]int) bool {
 	e2, _ := epochOf(slot)
-	for x := parent; x != nil && x.parent != nil; x = x.parent {
+	for x := parent; x != nil; x = x.parent { // down to and including genesis (tickets placed in the genesis accumulator)
 		e, _ := epochOf(x.block.Header.Slot)
 		if e != e2 {
 			break
@@ -120,7 +131,11 @@ func edSign(v *valKey, msg []byte) (s types.Ed25519Signature) {
 // culprits/faults each verdict kind requires.
 func (ru *run) planDisputes(parent *chainBlock, plan *blockPlan) {
 	t := ru.t
-	if !t.Prob(1, 5, "disputes") {
+	if ru.moreDisputes {
+		if !t.Prob(1, 2, "disputes_sibling") {
+			return
+		}
+	} else if !t.Prob(1, 5, "disputes") {
 		return
 	}
 	st := parent.state
